@@ -181,7 +181,7 @@ class DataProvider:
         if not model_weights:
             return
 
-        if self._weight[dataset_label]:
+        if self._weight[dataset_label] is not None:
             warnings.warn(
                 f"Ignoring model weight for dataset '{dataset_label}'"
                 " because weight is already supplied by dataset."
